@@ -196,6 +196,9 @@ func (g *G) headerBlock(decl int) string {
 		sb.WriteString("SIP/2.0 200 OK\r\n")
 	}
 	n := 1 + g.n(5)
+	if g.p(12) {
+		n = 9 + g.n(6) // more than the built-in array holds
+	}
 	at := g.n(n)
 	for i := 0; i < n; i++ {
 		if i == at && decl >= 0 {
@@ -326,8 +329,9 @@ func propC06(g *G, w *CaseW, rep *Report, thorough bool) {
 		}
 		all := strings.Join(msgs, "")
 		flags := uint(g.pick("\x00", "\x02", "\x04", "\x06")[0])
-		hist := &Case{Kind: kMsg, A: -1, B: -1}
-		x := newObj(kMsg, -1, -1, 0).(*oMsg)
+		hcap, ccap := []int{-1, -1, 0, 1, 2, 3}[g.n(6)], []int{-1, -1, 0, 1}[g.n(4)]
+		hist := &Case{Kind: kMsg, A: hcap, B: ccap}
+		x := newObj(kMsg, hcap, ccap, 0).(*oMsg)
 		o := 0
 		okAll := true
 		for j := 0; j < k; j++ {
@@ -343,7 +347,7 @@ func propC06(g *G, w *CaseW, rep *Report, thorough bool) {
 				break
 			}
 			// stand-alone
-			alone := Input{Kind: kMsg, A: -1, B: -1, Flags: flags, Buf: msgs[j]}
+			alone := Input{Kind: kMsg, A: hcap, B: ccap, Flags: flags, Buf: msgs[j]}
 			ra := newRun(&alone, nil)
 			rep.OracleEval++
 			var oa, ob Obs
@@ -474,7 +478,8 @@ func propC10(g *G, w *CaseW, rep *Report, thorough bool) {
 				rep.count("status:ok")
 			}
 		case 6: // port
-			u := g.pick("sip:h:", "sip:u@h:", "sips:[::1]:", "sip:u:p@h:", "sip:h.x:") + d + g.pick("", ";p=1", "?h=1")
+			u := g.pick("sip:h:", "sip:u@h:", "sips:[::1]:", "sip:u:p@h:", "sip:h.x:", "sip:u:12@h:", "sip:bob:0065@h.com:",
+				"sip:u:"+fmt.Sprint(g.n(70000))+"@h:", "sip:a:1;b@h:") + d + g.pick("", ";p=1", "?h=1")
 			r := checkURI(rep, w, []byte(u))
 			if r.Panic == "" && r.Err == 0 {
 				if ovf || v > 65535 || uint64(r.U.PortNo) != v {
@@ -489,9 +494,43 @@ func propC10(g *G, w *CaseW, rep *Report, thorough bool) {
 		if i < 3 {
 			rep.sample(d)
 		}
+		// the same numbers inside a header line and inside a message, cut at a random place:
+		// whatever path completes the value, the limits are the same
+		if i%3 == 0 {
+			hn := g.pick("Content-Length", "l", "CSeq", "Expires")
+			val := d
+			if hn == "CSeq" {
+				val = d + " INVITE"
+			}
+			for _, kind := range []int{kHdrLine, kMsg} {
+				text := hn + ":" + g.pick("", " ") + val + "\r\nX: y\r\n\r\n"
+				in := Input{Kind: kind, A: 1, B: 2, Buf: text}
+				if kind == kMsg {
+					in = Input{Kind: kMsg, A: -1, B: -1, Flags: 1, Buf: "OPTIONS sip:a@b SIP/2.0\r\n" + text}
+				}
+				one := inputCase(&in, nil)
+				out1, r1 := runCase(one)
+				w.emitCase(one, out1)
+				cuts := []int{1 + g.n(len(in.Buf)-1)}
+				ch := inputCase(&in, cuts)
+				out2, r2 := runCase(ch)
+				w.emitCase(ch, out2)
+				rep.Cases += 2
+				rep.OracleEval++
+				if len(r1) == 1 && len(r2) == 1 && r1[0].Panic == "" && r2[0].Panic == "" {
+					a, b := r1[0].Calls[len(r1[0].Calls)-1], r2[0].Calls[len(r2[0].Calls)-1]
+					if a != b || !eqObsValues(r1[0].Obs, r2[0].Obs) {
+						rep.violate(fmt.Sprintf("%s %q: one-shot gives (%d,%d), cut at %d gives (%d,%d): a number is accepted or rejected depending on the chunking",
+							kindNames[kind], hn+": "+val, a.O, a.E, cuts[0], b.O, b.E), "number-chunked",
+							map[string]interface{}{"case": json.RawMessage(caseJSON(ch))})
+					}
+				}
+			}
+		}
 	}
 	// the stale accumulator shape: a discarded port followed by the real one
-	for _, u := range []string{"sip:[::1]:5;x@h:7", "sip:a:1;b@h:22", "sip:a:65535?x@h:9", "sip:a:99999;x@h:1"} {
+	for _, u := range []string{"sip:[::1]:5;x@h:7", "sip:a:1;b@h:22", "sip:a:65535?x@h:9", "sip:a:99999;x@h:1",
+		"sip:bob:12@biloxi.com:34", "sip:u:1@h:5060", "sip:u:65535@h:1", "sip:u:0@h:0", "sip:u:9:9@h:7"} {
 		r := checkURI(rep, w, []byte(u))
 		if r.Panic == "" && r.Err == 0 {
 			v, _ := decimal(r.U.Port.Get([]byte(u)))
